@@ -45,17 +45,19 @@ def real_kill(B, shim, wd, L, W, stubborn=False, fifo=False):
     d = tempfile.mkdtemp(prefix='k', dir=wd)
     # fifo: the job's output goes to a FIFO nobody reads - opening it holds the executor up until the limit has passed, the job is
     # started late and has to be gone all the same (judged like a stubborn job: any signal, a second more)
-    if fifo: os.mkfifo(d + '/fifo')
+    if fifo:
+        os.mkfifo(d + '/fifo')
+        if fifo > 1: os.mkfifo(d + '/fifo2')
     # stubborn: a job that does not care about the polite signal (SIGXCPU ignored); it has to be gone all the same
     v = '\n'.join(['BEGIN:VCALENDAR', 'VERSION:2.0', 'BEGIN:VTODO', 'UID:kill-%d-%d' % (L, W), 'SUMMARY:' + ("trap '' XCPU\\; sleep %d" % W if stubborn else 'sleep %d' % W), 'X-ECHS-SETUID:%d' % os.getuid(), 'X-ECHS-SETGID:%d' % os.getgid(),
-                   'X-ECHS-SHELL:/bin/sh', 'LOCATION:' + d, 'DURATION:PT%dS' % L, 'X-ECHS-UMASK:022', 'X-ECHS-MAIL-RUN:0', 'X-ECHS-MAIL-OUT:0', 'X-ECHS-MAIL-ERR:0', 'ORGANIZER:echse'] + (['X-ECHS-OFILE:' + d + '/fifo'] if fifo else []) + ['END:VTODO', 'END:VCALENDAR', ''])
+                   'X-ECHS-SHELL:/bin/sh', 'LOCATION:' + d, 'DURATION:PT%dS' % L, 'X-ECHS-UMASK:022', 'X-ECHS-MAIL-RUN:0', 'X-ECHS-MAIL-OUT:0', 'X-ECHS-MAIL-ERR:0', 'ORGANIZER:echse'] + (['X-ECHS-OFILE:' + d + '/fifo'] if fifo else []) + (['X-ECHS-EFILE:' + d + '/fifo2'] if fifo and fifo > 1 else []) + ['END:VTODO', 'END:VCALENDAR', ''])
     env = dict(os.environ, XSHIM_DIR=d, XSHIM_MAILER=execrun.MAILER, LD_PRELOAD=shim)
     t0 = time.time()
     p = subprocess.run([f'{B}/echsx', '-v'], input=v, capture_output=True, text=True, timeout=W + 30, env=env)
     wall = time.time() - t0
     m = re.search(r'^X-EXIT-STATUS:(\d+)', p.stdout, re.M); ms = re.search(r'^X-SIGNAL:(\d+)', p.stdout, re.M)
     shutil.rmtree(d, ignore_errors=True)
-    return {'e': 'Kill', 'L': L, 'W': W, 'stubborn': stubborn or fifo, 'fifo': fifo, 'wallms': int(wall * 1000), 'jsig': int(ms.group(1)) if ms else 0, 'jexit': int(m.group(1)) if m else -1}
+    return {'e': 'Kill', 'L': L, 'W': W, 'stubborn': stubborn, 'held': int(fifo), 'wallms': int(wall * 1000), 'jsig': int(ms.group(1)) if ms else 0, 'jexit': int(m.group(1)) if m else -1}
 
 def locked_kill(B, shim, wd, L, W, hold):
     """sleep W under limit L while another process holds the lock of the journal file (as another run of the same task that is just
@@ -148,7 +150,7 @@ def run(tier, seed):
         recs += list(ex.map(due_case, dues))
     # real time: sleep W under limit L
     kills = [(1, 30), (2, 30), (5, 1), (3, 30)] if tier != 'thorough' else [(1, 30), (2, 30), (3, 30), (1, 30), (2, 30), (3, 30), (5, 1), (4, 2), (2, 1), (6, 30), (1, 30), (10, 3)]
-    kills = [lw + (False,) for lw in kills] + [(1, 30, True), (2, 6, True), (1, 9, False, True), (2, 9, False, True)]
+    kills = [lw + (False,) for lw in kills] + [(1, 30, True), (2, 6, True), (1, 9, False, 1), (2, 9, False, 1), (1, 9, False, 2)]
     with cf.ThreadPoolExecutor(max_workers=len(kills)) as ex:
         recs += list(ex.map(lambda lw: real_kill(B, shim, xd, *lw), kills))
     # the same while the journal is locked by someone else past the end of the job: the record of the termination waits for the lock
